@@ -97,6 +97,8 @@ func checkC09(c *Ctx) {
 	c09UTF8First(c, ep)
 	r.Rule("R09k", "regular expressions shared by all requests of the emitted TS server are stateless", 1)
 	c09StatelessRegex(c, "R09k")
+	r.Rule("R09m", "the header merge (annotations.CombineHeaders) orders only slices it owns: the service-level header list shared by all methods is never appended into or sorted in place (shared with C15/R15h)", 1)
+	sharedSliceMutation(c, "R09m", func(fn *types.Func) bool { return strings.HasSuffix(fn.Pkg().Path(), "internal/annotations") })
 	r.Rule("R09l", "header violation descriptions are built from the declared name and the error, not from the raw value", 1)
 	c09ViolationText(c, ep, "R09l")
 	eff := NewEffects(ep)
